@@ -248,7 +248,12 @@ struct ForestWorld
         auto replaceOne = [&](int x, int nw) -> bool {
             int px = s.parent[x];
             if (nw == x) { unchanged("true"); unchanged("false"); situation += "+replacement-is-target"; return true; }
-            if (s.parent[nw] == px) { situation += "+replacement-already-in-that-container"; return false; }
+            // a replacement that is a sibling of x moves into x's slot; every other child keeps its relative order (exact)
+            bool sibling = s.parent[nw] == px;
+            if (sibling) {
+                auto &l = s.lists[px];
+                situation += (std::find(l.begin(), l.end(), nw) < std::find(l.begin(), l.end(), x)) ? "+replacement-is-earlier-sibling" : "+replacement-is-later-sibling";
+            }
             if (px >= NM && (px - NM == nw || s.isAncestor(nw, px - NM))) { unchanged("false"); situation += "+replacement-is-ancestor-of-slot"; return true; }
             TState t = s;
             detach(t, nw);
@@ -258,8 +263,11 @@ struct ForestWorld
             t.parent[nw] = px;
             t.settle();
             al.push_back({t, "true"});
-            if (s.parent[nw] >= 0) { unchanged("false"); situation += "+replacement-has-other-parent"; }
-            else situation += "+replacement-parentless";
+            if (sibling) return true;
+            if (s.parent[nw] >= 0) {
+                unchanged("false");
+                situation += (nw != x && s.isAncestor(x, nw)) ? "+replacement-is-descendant-of-target" : "+replacement-has-other-parent";
+            } else situation += "+replacement-parentless";
             return true;
         };
         switch (o.k) {
